@@ -138,12 +138,16 @@ CLAIMED.update({
             "component span on W lines and = stated length on U lines, ends at the scaffold length, and carries U/type/yes; "
             "format_agp is total on valid strands. " + CORR + "Independent AGP column checker as oracle, also on asm-format and on the .agp cache of indexed FASTA files.",
             NOTE, "Coq proof (induction over rows) + in-Coq correspondence + AGP column checker", "DESIGN.md 6/C06"),
-    "C07": ("PARTIAL proof: decided on each run by the correspondence of the pipeline model and an oracle that walks every output "
-            "scaffold against the input adjacencies (no direct adjacency that was not one in the input; no terminal gap; on "
-            "PretextView-model maps every gap is the input gap of the same neighbours or the join gap). Coq: C18 (no terminal "
-            "gap in any overlap result after any edit sequence), C12 (lookups strip terminal gaps), C01 (what is re-added). The "
-            "pinned commit's gapless left-over join is reproduced, fixed, and kept in the corpus. " + PIPE,
-            NOTE, "in-Coq correspondence of the pipeline + adjacency oracle; Coq lemmas for the ingredients (partial)", "DESIGN.md 6/C07, 13"),
+    "C07": ("Coq theorems: C07_gap_provenance, end to end through `remap` for ALL inputs, ALL Pretext maps (garbage included), "
+            "all texel sizes and configurations: every gap row of every output scaffold is the configured join gap or a gap "
+            "row (same length and type) of the input; on the fusion step: a fused scaffold never begins or ends with a gap, "
+            "every fusion boundary carries the join gap, two fragments are directly adjacent only inside one piece, and in "
+            "left-over rows only if they were adjacent rows of the input (JoinGaps.v); C18 (no terminal gap in any overlap "
+            "result after any edit sequence), C12 (lookups strip terminal gaps). That a kept input gap still separates the SAME "
+            "two contigs, and the join-gap clause for non-neighbours on PretextView-model maps, are decided by the oracle that "
+            "walks every output scaffold against the input adjacencies. The pinned commit's gapless left-over join is refuted "
+            "in Coq, reproduced, fixed, and kept in the corpus. " + PIPE,
+            NOTE, "Coq proof (pipeline invariant for gap rows, fold invariants of the fusion) + in-Coq correspondence of the pipeline + adjacency oracle", "DESIGN.md 6/C07, 13"),
     "C08": ("Coq theorem C08_null_map_identity, END TO END through `remap`, no size bound: for every input of well-formed "
             "scaffolds with distinct names and contigs, every texel size and every null map (each scaffold whole, forward, "
             "unpainted, untagged, its bait reaching the last row and ending within one texel of the scaffold end; any subset of "
